@@ -11,9 +11,9 @@
      command — both strategies, solid entries expanded by `expand` and rebuilt by `rebuild` — is
      well-formed again.
    acl set and migrate are not covered (their chunks carry owner names of unbounded length). *)
-From PNA Require Import Base Crc32 Name Codec Chunk Archive Entry CliCodec Wf.
-From PNA Require Import BaseFacts NameFacts CodecFacts Crc32Facts ChunkFacts ArchiveFacts EntryFacts CliCodecFacts WfFacts
-  WfWriterFacts WfAgreeFacts WfRewriteFacts.
+From PNA Require Import Base Crc32 Name Codec Chunk Archive Entry CliCodec Cbc Pipeline Wf.
+From PNA Require Import BaseFacts NameFacts CodecFacts Crc32Facts ChunkFacts ArchiveFacts EntryFacts CliCodecFacts CbcFacts WfFacts
+  WfWriterFacts WfAgreeFacts WfRewriteFacts WfPipelineFacts.
 From PNA Require Transform TransformFacts.
 Require Import ZArith ZifyN ZifyNat ZifyBool.
 Open Scope N_scope.
@@ -331,6 +331,37 @@ Proof.
   apply writer_wf. exact (edit_archive_writable keep pw c sel CO _ _ (proj2 writable_exact _ _ D) EA).
 Qed.
 End View.
+
+(* ---- keep-solid with the pipeline's SolidEntryBuilder as `rebuild`: the hypothesis about rebuilding is
+   a theorem (WfPipelineFacts.rebuild_solid_writable) for every block cipher that keeps 16-byte blocks
+   and every compressor that hands on pieces shorter than 2^32 bytes ------------------------------------ *)
+Section PipelineRebuild.
+Variable E : encryption -> bytes -> bytes -> bytes.
+Variable compress : compression -> N -> list bytes -> list bytes.
+Hypothesis E_len : forall a k b, len16 b -> len16 (E a k b).
+Hypothesis compress_fits : compress_small compress.
+Variables hdr_tok content_tok : normal_entry -> bytes.
+Variable expand : solid_entry -> res (list normal_entry).
+Hypothesis expand_writable : forall s inner, writable_solid s -> expand s = Ok inner -> Forall writable_normal inner.
+(* WriteOptions of the rebuilt solid entry: the codec, cipher and mode of the old header, the default
+   level, a fresh cipher context derived from the password *)
+Variable lvl : N.
+Variable ctx : cctx.
+Hypothesis ctx_ok : strict_ctx ctx.
+
+Definition cfg_of (s : solid_entry) : config :=
+  {| g_comp := s_comp (so_hdr s); g_level := lvl; g_enc := s_enc (so_hdr s); g_mode := s_mode (so_hdr s) |}.
+Definition rebuild_pipeline (s : solid_entry) (inner : list normal_entry) : solid_entry :=
+  build_solid E compress (cfg_of s) ctx (so_extra s) (solid_writes inner).
+
+Theorem transform_wf_pipeline keep pw c nfiles sel a a' : cmd_ok c -> wf_archive a = true ->
+  run_edit hdr_tok content_tok expand rebuild_pipeline keep pw c nfiles sel a = Ok a' -> wf_archive a' = true.
+Proof.
+  apply transform_wf; [exact expand_writable|].
+  intros s inner (_ & _ & _ & EX & _) W. unfold rebuild_pipeline.
+  exact (rebuild_solid_writable E compress E_len (cfg_of s) ctx (so_extra s) inner compress_fits ctx_ok EX W).
+Qed.
+End PipelineRebuild.
 
 (* the hypotheses of the section are satisfiable (tokens: the header options and the data stream, which
    the attribute replacements do not touch; the trivial expansion) and so are the premises of transform_wf *)
